@@ -682,6 +682,8 @@ pub enum CustomTypeParseError {
     InvalidParameterCount { actual: usize, expected: usize },
     #[error("Type is nested deeper than the supported maximum of {0} levels")]
     NestingTooDeep(usize),
+    #[error("Vector type must have a positive number of dimensions")]
+    ZeroVectorDimensions,
 }
 
 /// An error type returned when deserialization of CQL type name fails.
